@@ -398,6 +398,35 @@ def run(tier, seed):
   for i in bad[:3]:
     broke = ((broke or '') + ' correspondence SequentialParameterBuilder validation vs build_v on %r;' % (vobjs[i],))
 
+  # ---- boolean parents in both spellings: a boolean parameter is a categorical one with the values 'False' / 'True', and a Python
+  # bool and the matching string are the same value - at construction (select_values) and when walking (choose_value)
+  for built_with in (True, 'True', False, 'False'):
+    for chosen in (True, 'True', False, 'False'):
+      for order in ('dfs', 'bfs'):
+        for nested in (False, True):
+          try:
+            sp_ = vz.SearchSpace()
+            flag_ = sp_.root.add_bool_param('flag')
+            sub_ = flag_.select_values([built_with])
+            sub_.add_categorical_param('child', ['u', 'v'])
+            if nested:
+              sub_.add_bool_param('flag2').select_values([built_with]).add_float_param('grandchild', 0.0, 1.0)
+            sp_.root.add_float_param('lr', 0.1, 1.0)
+            b_ = parameter_iterators.SequentialParameterBuilder(sp_, traverse_order=order)
+            visited_ = []
+            for pc_ in b_:
+              visited_.append(pc_.name)
+              b_.choose_value(chosen if pc_.name in ('flag', 'flag2') else ('u' if pc_.name == 'child' else 0.5))
+            same_ = str(built_with) == str(chosen)
+            want_ = ['flag', 'lr'] + (['child'] + (['flag2', 'grandchild'] if nested else []) if same_ else [])
+            rep.case({'boolean_parent_built_with': repr(built_with), 'chosen': repr(chosen), 'order': order, 'nested': nested}, same_)
+            rep.count('boolean_parent_spellings')
+            if sorted(visited_) != sorted(want_) or sorted(b_.parameters.keys()) != sorted(want_):
+              viol('SequentialParameterBuilder (%s): children under a boolean parent built with %r and walked with %r: visited %s, active are %s'
+                   % (order, built_with, chosen, sorted(visited_), sorted(want_)), {'built_with': repr(built_with), 'chosen': repr(chosen), 'nested': nested})
+          except Exception as e:  # pylint: disable=broad-except
+            viol('a boolean parent given as %r / %r is refused: %s' % (built_with, chosen, type(e).__name__), {'error': repr(e)[:200]})
+
   # ---- builders with invalid arguments / client add_trial
   for i in range(N // 8):
     space = vz.SearchSpace()
